@@ -30,13 +30,17 @@ def install(ctx):
     from sedfitter.sed import SED
 
     def cf_snapshot(self, apertures):
-        return (probe.arr(apertures.to(u.au)), probe.arr(self.flux), probe.arr(self.error), probe.arr(self.model_names),
-                None if self.apertures is None else probe.arr(self.apertures.to(u.au)), self.central_wavelength)
+        # fluxes and errors are taken in mJy whatever unit the table holds them in (they may differ from each other)
+        return (probe.arr(apertures.to(u.au)), probe.arr(self.flux.to(u.mJy)), None if self.error is None else probe.arr(self.error.to(u.mJy)),
+                probe.arr(self.model_names), None if self.apertures is None else probe.arr(self.apertures.to(u.au)), self.central_wavelength,
+                probe.arr(self.flux))
 
     def cf_post(self, apertures, OLD, result):
         ctx.event('ConvolvedFluxes.interpolate:post')
-        req, fl, er, names, tab, cw = OLD.S
-        wit = {'table_au': tab, 'request_au': req, 'n_models': len(names)}
+        req, fl, er, names, tab, cw, fl_raw = OLD.S
+        wit = {'table_au': tab, 'request_au': req, 'n_models': len(names), 'flux_unit': str(self.flux.unit),
+               'error_unit': None if self.error is None else str(self.error.unit)}
+        had_errors = er is not None
         if er is None:            # a table without errors (optional): only the fluxes are judged
             er = fl
             ctx.event('convolved:table-without-errors')
@@ -51,26 +55,35 @@ def install(ctx):
                     return True
                 ctx.violation('convolved:below-table-served', 'a radius below the smallest tabulated aperture was not refused', wit)
                 return True
-        gf = np.asarray(result.flux.to(self.flux.unit).value, float)
-        ge = np.asarray(result.error.to(self.error.unit).value, float) if self.error is not None and result.error is not None else ref_e
+        try:
+            gf = np.asarray(result.flux.to(u.mJy).value, float)
+            ge = np.asarray(result.error.to(u.mJy).value, float) if result.error is not None else None
+        except Exception as exc:
+            ctx.violation('convolved:result-unit', 'the interpolated table does not carry a flux unit: %r' % (exc,), wit)
+            return True
+        if had_errors and ge is None:
+            ctx.violation('convolved:errors-dropped', 'the table has errors but the interpolated table has none', wit)
+            return True
+        if ge is None:
+            ge = ref_e
         if gf.shape != ref_f.shape or not O.close(gf, ref_f, 1e-11) or not O.close(ge, ref_e, 1e-11):
             bad = 'above' if tab is not None and np.any(req > tab[-1]) else 'inside'
             ctx.violation('convolved:wrong-interpolant:' + bad, 'interpolated convolved fluxes are not exact-at-knots / linear-between / clamped-above',
                           dict(wit, got=gf[0] if gf.ndim == 2 else gf, expected=ref_f[0]))
         if not probe.same(result.model_names, names) or result.central_wavelength != cw:
             ctx.violation('convolved:identity-touched', 'model order, names or wavelength changed by interpolation', wit)
-        if not probe.same(self.flux.value, fl):       # not in the statement as such; its consequence (same request, same answer later) is checked by the driver
+        if not probe.same(self.flux.value, fl_raw):       # not in the statement as such; its consequence (same request, same answer later) is checked by the driver
             ctx.event('convolved:table-modified-by-interpolate')
         return True
 
     def sed_snapshot(self, apertures):
-        return (np.array(apertures, float, copy=True), probe.arr(self.flux),
-                None if self.apertures is None else probe.arr(self.apertures.to(u.au)))
+        return (np.array(apertures, float, copy=True), probe.arr(self.flux.to(u.mJy)),
+                None if self.apertures is None else probe.arr(self.apertures.to(u.au)), float((1.0 * self.flux.unit).to(u.mJy).value))
 
     def sed_post(self, apertures, OLD, result):
         ctx.event('SED.interpolate:post')
-        req, fl, tab = OLD.S
-        wit = {'table_au': tab, 'request_au': req}
+        req, fl, tab, per_unit = OLD.S
+        wit = {'table_au': tab, 'request_au': req, 'flux_unit': str(self.flux.unit)}
         if tab is None or len(tab) == 1:
             ref = np.repeat(fl[0][:, None], len(req), axis=1)
         else:
@@ -80,20 +93,22 @@ def install(ctx):
                     return True
                 ctx.violation('sed:below-table-served', 'a radius below the smallest tabulated aperture was not refused', wit)
                 return True
-        got = np.asarray(result.value if hasattr(result, 'value') else result, float)
+        # a quantity is compared in mJy; bare numbers are in the unit the SED holds its fluxes in
+        got = np.asarray(result.to(u.mJy).value, float) if hasattr(result, 'to') else np.asarray(result, float) * per_unit
         if got.shape != ref.shape or not O.close(got, ref, 1e-11):
             ctx.violation('sed:wrong-interpolant', 'SED interpolated in aperture is not exact-at-knots / linear-between / clamped-above',
                           dict(wit, got=got[:3], expected=ref[:3]))
         return True
 
     def var_snapshot(self, wavelengths, apertures):
-        return (np.array(wavelengths, float, copy=True), np.array(apertures, float, copy=True), probe.arr(self.flux),
-                None if self.apertures is None else probe.arr(self.apertures.to(u.au)), probe.arr(self.wav.to(u.micron)))
+        return (np.array(wavelengths, float, copy=True), np.array(apertures, float, copy=True), probe.arr(self.flux.to(u.mJy)),
+                None if self.apertures is None else probe.arr(self.apertures.to(u.au)), probe.arr(self.wav.to(u.micron)),
+                float((1.0 * self.flux.unit).to(u.mJy).value))
 
     def var_post(self, wavelengths, apertures, OLD, result):
         ctx.event('SED.interpolate_variable:post')
-        fw, req, fl, tab, sw = OLD.S
-        got = np.asarray(result.value if hasattr(result, 'value') else result, float)
+        fw, req, fl, tab, sw, per_unit = OLD.S
+        got = np.asarray(result.to(u.mJy).value, float) if hasattr(result, 'to') else np.asarray(result, float) * per_unit
         wit = {'table_au': tab, 'filter_wav': fw, 'filter_ap_au': req}
         if got.shape != sw.shape:
             ctx.violation('variable:shape', 'composite SED has the wrong shape', wit)
@@ -156,7 +171,7 @@ def run(ctx):
                'rtol 1e-11 (1e-9 for the composite SED)')
     ctx.require_events('ConvolvedFluxes.interpolate:post', 'SED.interpolate:post', 'SED.interpolate_variable:post', 'variable:node-checked',
                        'refused:convolved', 'refused:sed', 'refused:variable', 'convolved:same-table-again', 'convolved:table-changed-between-calls', 'convolved:table-without-errors', 'sed:apertures-replaced-between-calls', 'sed:fluxes-replaced-between-calls', 'convolved:apertures-replaced-between-calls')
-    ctx.require_regimes('single-aperture', 'convolved:no-apertures', 'unit:pc', 'unit:cm', 'sed-apertures:cm', 'above-table', 'on-knot')
+    ctx.require_regimes('single-aperture', 'convolved:no-apertures', 'convolved:flux-unit-not-mJy', 'convolved:error-unit-differs', 'sed:desc-wav', 'sed:flux-unit-not-mJy', 'unit:pc', 'unit:cm', 'sed-apertures:cm', 'above-table', 'on-knot')
     n_it = 250 if ctx.quick else 10000
     for it in range(n_it):
         n_ap = int(rng.integers(1, 9))
@@ -176,9 +191,16 @@ def run(ctx):
         else:
             cf.apertures = tq
         fl = gen.conv_grid(rng, n_m, 1, n_ap=n_ap)[:, :, 0]
-        cf.flux = fl * u.mJy
+        # the table may hold its fluxes in mJy, Jy or uJy, and its errors in another of these
+        cfu = [u.mJy, u.Jy, u.uJy][it % 3]
+        cfe = [u.mJy, u.Jy, u.uJy][(it // 3) % 3]
+        if cfu != u.mJy:
+            ctx.regime('convolved:flux-unit-not-mJy')
+        if cfe != cfu:
+            ctx.regime('convolved:error-unit-differs')
+        cf.flux = (fl * u.mJy).to(cfu)
         if it % 10 != 7:
-            cf.error = fl * rng.uniform(0.01, 0.3, fl.shape) * u.mJy      # not proportional to the fluxes
+            cf.error = (fl * rng.uniform(0.01, 0.3, fl.shape) * u.mJy).to(cfe)      # not proportional to the fluxes
         tab_au = np.asarray(tq.to(u.au).value, float)          # what the table is, after the user's unit choice
         req = requests(rng, tab_au, int(rng.integers(1, 7)))
         runit = str(rng.choice(['au', 'pc', 'cm']))
@@ -215,9 +237,9 @@ def run(ctx):
                 # the table itself changed by the user between calls (values re-assigned; rows re-ordered with sort_to_match):
                 # every call must answer from the table as it is then (the contract snapshots it before each call)
                 fl2 = gen.conv_grid(rng, n_m, 1, n_ap=n_ap)[:, :, 0]
-                cf.flux = fl2 * u.mJy
+                cf.flux = (fl2 * u.mJy).to(cfe)
                 if cf.error is not None:
-                    cf.error = fl2 * rng.uniform(0.01, 0.3, fl2.shape) * u.mJy
+                    cf.error = (fl2 * rng.uniform(0.01, 0.3, fl2.shape) * u.mJy).to(cfu)
                 cf.interpolate(rq)
                 if n_ap >= 2 and not no_ap:
                     # ... the aperture table replaced (same number of radii; other values, another unit)
@@ -251,16 +273,22 @@ def run(ctx):
         s = SED()
         s.name = 'x'
         s.distance = 1 * u.kpc
-        s.wav = wav * u.micron
+        sdesc = bool(it % 2)            # SEDs as read from files come in decreasing wavelength
+        if sdesc:
+            ctx.regime('sed:desc-wav')
+        s.wav = (wav[::-1] if sdesc else wav) * u.micron
         sunit = str(rng.choice(['au', 'cm']))
         if sunit == 'cm':
             ctx.regime('sed-apertures:cm')
         sq = (tab * u.au).to(u.Unit(sunit))
         s.apertures = sq
         tab_s = np.asarray(sq.to(u.au).value, float)
-        sfl = gen.conv_grid(rng, 1, n_w, n_ap=n_ap)[0]            # [n_ap, n_wav]
-        s.flux = sfl * u.mJy
-        s.error = sfl * 0.1 * u.mJy
+        sfl = gen.conv_grid(rng, 1, n_w, n_ap=n_ap)[0]            # [n_ap, n_wav], in the order of s.wav
+        sfu = [u.mJy, u.Jy][(it // 2) % 2]
+        if sfu != u.mJy:
+            ctx.regime('sed:flux-unit-not-mJy')
+        s.flux = (sfl * u.mJy).to(sfu)
+        s.error = (sfl * 0.1 * u.mJy).to(sfu)
         req = requests(rng, tab_s, int(rng.integers(1, 5)))
         if sunit != 'au':
             req = np.array([a * (1 + 1e-9) if a == tab_s[0] else a for a in req])
@@ -286,8 +314,8 @@ def run(ctx):
                 s.apertures = sq
                 # ... and the fluxes replaced (apertures untouched)
                 sfl2 = gen.conv_grid(rng, 1, n_w, n_ap=n_ap)[0]
-                s.flux = sfl2 * u.mJy
-                s.error = sfl2 * 0.1 * u.mJy
+                s.flux = (sfl2 * u.mJy).to(sfu)
+                s.error = (sfl2 * 0.1 * u.mJy).to(sfu)
                 s.interpolate(req.copy())
                 ctx.event('sed:fluxes-replaced-between-calls')
         except Exception as exc:
@@ -298,9 +326,7 @@ def run(ctx):
             try:
                 s.interpolate(below.copy())
             except Exception as exc:
-                if 'too small' in str(exc):
-                    ctx.event('refused:sed')
-                # any other exception here is the same defect reported by sed:raised above
+                ctx.event('refused:sed')          # (however the refusal is worded)
             else:
                 ctx.violation('sed:below-table-served', 'a radius below the smallest tabulated aperture was not refused', dict(wit, request_au=below))
         # variable: filters at SED nodes
